@@ -156,17 +156,32 @@ func apiSetup(cfg apiCfg, errPageExists bool) (*apiEnv, error) {
 		files = append(files, f)
 	}
 	files = append(files, treeFile{Path: "plain.tw", Src: "file:{{ who }}" + fnMix})
-	root, err := setupTree(files, treeCfg{Dir: cfg.Dir, Ext: cfg.Ext})
-	if err != nil {
-		return nil, err
+	// the tree of a configuration is written once per worker process and loaded anew for every case (no case changes it)
+	key := fmt.Sprintf("%s|%s|%v", cfg.Dir, cfg.Ext, errPageExists)
+	root, cached := apiTrees[key]
+	if cached {
+		if err := os.Chdir(root); err != nil {
+			return nil, err
+		}
+	} else {
+		var err error
+		root, err = setupTree(files, treeCfg{Dir: cfg.Dir, Ext: cfg.Ext})
+		if err != nil {
+			return nil, err
+		}
+		apiTrees[key] = root
 	}
 	e := &apiEnv{root: root, cfg: cfg}
 	if err := e.reload(); err != nil {
-		cleanupTree(root)
 		return nil, err
 	}
 	return e, nil
 }
+
+var apiTrees = map[string]string{}
+
+// close leaves the tree in place for the next case of this worker (the scratch directory is removed with the run).
+func (e *apiEnv) close() { os.Chdir("/") }
 
 func (e *apiEnv) reload() error {
 	textwire.VerifReset()
@@ -347,7 +362,7 @@ func apiFamily(raw json.RawMessage) Result {
 		res.Status, res.Msg = "skip", err.Error()
 		return res
 	}
-	defer cleanupTree(e.root)
+	defer e.close()
 	solos := map[apiOp]string{}
 	for _, o := range c.Ops {
 		if _, ok := solos[o.Op]; !ok {
@@ -629,7 +644,7 @@ func cmdRace(args []string) int {
 			}()
 		}
 		wg.Wait()
-		cleanupTree(e.root)
+		e.close()
 		rounds++
 	}
 	b, _ := json.Marshal(Result{ID: "stress-summary", Status: "ok", Stats: map[string]int{"rounds": rounds, "mismatches": bad}})
